@@ -79,3 +79,10 @@ func clip(a []int) []int {
 	}
 	return a
 }
+
+func trunc(s string, n int) string {
+	if len(s) > n {
+		return s[:n] + "…"
+	}
+	return s
+}
